@@ -2,8 +2,8 @@ package props
 
 import (
 	"crypto/ecdsa"
-	cryptorand "crypto/rand"
 	"crypto/elliptic"
+	cryptorand "crypto/rand"
 	"encoding/binary"
 	"fmt"
 	"math/big"
